@@ -19,6 +19,8 @@ CLAIMS = {
          "checked accessors, iterator bounds, last-word masks in count/eq, push clears the target bit. Histories as such are not explored."),
  "C13": ("atomic RMW discipline (load/store/CAS classification by receiver kind and data flow) + field-confinement law", "5 C13",
          "shared words are modified only by single fetch_* or by compare_exchange loops that refresh the expected value and recompute the new word from it; no load->store through &self; every word update is confined to the element's bits and agrees with the non-atomic writer; the concurrent Elias-Fano builder writes through these setters with the sequential split. Memory-order effects other than atomicity are not modelled."),
+ "C14": ("storage-tail discipline: backend accesses classified as full-word slice / masked last word / element-addressed; field-confinement law", "5 C14",
+         "readers use only the first len*width/BITS words and mask the partial last word; bulk writers store whole words only below that bound and confine the last-word update to the live bits; single-element writes obey the confinement law; ones/zeros iterators return only positions < len. apply_in_place and copy are covered by C10's rules."),
  "C12": ("unsafe-site census with guard dominance and a table of construction invariants", "5 C12",
          "every unsafe call in a safe function is discharged by dominating facts or rests on a tabled construction invariant; unchecked-precondition functions are unsafe fn; iterator start protocol; universe guard. The construction invariants themselves are assumptions."),
 }
